@@ -47,7 +47,7 @@ REQUIRED = {
         "mode_jit_vmap": 4500, "mode_jit_scalar": 400, "mode_eager": 100,
         "converged_checked": 3000, "decided_by_x_tol": 2000, "decided_by_r_tol": 600,
         "endpoint_root_checked": 500, "nobracket_checked": 500, "ample_checked": 500,
-        "exhaustion_classified": 200, "deriv_components_checked": 2500, "deriv_nonzero_components": 1000,
+        "exhaustion_classified": 200, "deriv_components_checked": 2500, "deriv_elements_residual_scale_below_1e-12": 20, "deriv_elements_residual_scale_above_1e12": 20, "deriv_nonzero_components": 1000,
         "guess_inside": 1000, "guess_outside": 600, "guess_at_root": 200, "guess_other_root": 60, "guess_far_outside": 200,
         "guess_at_end": 200, "guess_midpoint": 100,
         "left_end_negative": 1500, "right_end_negative": 1500,
@@ -418,6 +418,16 @@ def run_case(case):
         els = []
         for j, c in enumerate(sub):
             els += G.make_elements(fam, c, case["seed"] + j, n=G.BATCH // len(sub))
+        # the implicit derivative does not depend on the units of the residual: rescale the amplitude of every second element
+        # whose stopping test is on x only (r_tol = 0) by 10^U(-18, 18) (residual slopes from 1e-18 to 1e18)
+        from vlib.common import rng_of
+        rs = rng_of(case["seed"] + 17)
+        for k, e in enumerate(els):
+            if k % 2 == 0 and float(e.get("r_tol", 0.0)) == 0.0:
+                sc = 10.0 ** rs.uniform(-18, 18)
+                e["th"][0] = float(e["th"][0] * sc)
+                res.count("deriv_elements_residual_scale_below_1e-12" if sc < 1e-12 else
+                          ("deriv_elements_residual_scale_above_1e12" if sc > 1e12 else "deriv_elements_residual_scale_mid"))
     else:
         els = G.make_elements(fam, cls, case["seed"])
     if cls not in ("witness",) and len(els) < G.BATCH:
